@@ -61,98 +61,117 @@ def mods_for_config(mods, config):
     return out
 
 
+def _run_kani_config(prop, tier, cfg, lst, mods, jobs, replay_dir, known_sites, records, violations, annotations, cmds, soft):
+    scratch = common.new_scratch("k." + cfg)
+    common.copy_repo(scratch)
+    needed = {o["module"] for o in lst}
+    cmods = [m for m in mods_for_config(mods, cfg) if m["stem"] in needed or m.get("always") or m["stem"] == "support"]
+    annotations += K.annotate(scratch, cmods, cfg)
+    # full harness paths: <host module path>::verif_<stem>::<name>
+    full = {}
+    for o in lst:
+        full[_full_name(o)] = o
+    timeout = 3600 if tier == "quick" else 4 * 3600
+    # harnesses that need extra CBMC arguments (//@ob cbmc="...") run in their own invocation
+    groups = {}
+    for n, o in full.items():
+        groups.setdefault(o["meta"].get("cbmc", ""), []).append(n)
+    results, raw = {}, ""
+    for cb, names in sorted(groups.items()):
+        r1, raw1, cmd, data = K.run_harnesses(scratch, cfg, sorted(names), jobs, timeout,
+                                              per_harness_timeout="600s" if tier == "quick" else "3600s", cbmc_args=cb or None)
+        results.update(r1)
+        raw += raw1
+        cmds.append(cmd)
+    missing = [n for n in full if n not in results]
+    if missing:
+        raise Undecided("kani did not run %d expected harnesses (renamed or filtered out?): %s" % (len(missing), missing[:5]))
+    for name, o in sorted(full.items()):
+        r = results[name]
+        rec = {
+            "name": "%s[%s]" % (o["harness"], cfg), "engine": "kani", "config": cfg, "harness": name,
+            "function": o["meta"].get("fn"), "at": o["meta"].get("at"), "clause": o["meta"].get("clause"),
+            "solver": r["solver"], "solver_s": r["solver_s"], "seconds": (r["duration_ms"] or 0) / 1000.0,
+            "checks": r["n_checks"], "vccs": r["vccs"], "covers": r["covers"],
+        }
+        if "bounded" in o["meta"]:
+            rec["bounded"] = o["meta"]["bounded"]          # a bounded stand-in: never counted as proved
+        if "instance" in o["meta"]:
+            rec["instance"] = o["meta"]["instance"]        # complete proof of ONE const-generic instantiation / size
+        if o["meta"].get("witness"):
+            # refutation witness of a recorded known finding: not an obligation that the property holds
+            rec["witness"] = True
+        expect_fail = o["meta"].get("expect") == "refuted"
+        status = r["status"]
+        bad_cover = [c for c in r["covers"] if not _cover_ok(c)]
+        if status == "Success" and not r["undetermined"] and not bad_cover:
+            rec["status"] = "discharged"
+        elif status == "Success" and bad_cover:
+            # vacuity guard tripped: an expected-reachable point is unreachable or vice versa
+            rec["status"] = "refuted"
+            rec["failed"] = [{"description": "cover %r is %s" % (c["description"], c["status"])} for c in bad_cover]
+        elif status == "Failure":
+            fc = r["failed_checks"]
+            only_unwind = fc and all("unwinding assertion" in (c["description"] or "") for c in fc)
+            if only_unwind or (not fc and r["undetermined"]):
+                soft.append("harness %s: unwinding bound / undetermined checks: %s" % (name, fc or r["undetermined"]))
+                rec["status"] = "undecided"
+                records.append(rec)
+                continue
+            if not fc and r.get("should_panic") and "timed out" not in raw and not r["undetermined"]:
+                # a #[kani::should_panic] harness in which nothing panicked: the "always panics" obligation is refuted
+                fc = [{"description": "expected a panic (should_panic) but no execution panics", "function": name}]
+            if not fc:
+                soft.append("harness %s failed without a failed check (timeout / solver error?)\n%s" % (name, raw[-1500:]))
+                rec["status"] = "undecided"
+                records.append(rec)
+                continue
+            rec["status"] = "refuted"
+            rec["failed"] = fc
+        else:
+            soft.append("harness %s: status %r undetermined=%s" % (name, status, r["undetermined"]))
+            rec["status"] = "undecided"
+            records.append(rec)
+            continue
+        if rec["status"] == "refuted":
+            site = o["harness"]
+            pb = None
+            if status == "Failure" and site in known_sites and o["meta"].get("witness"):
+                pb = {"generated": False, "note": "witness of a recorded known finding: not replayed"}
+            elif status == "Failure":
+                log("replaying counterexample of %s natively" % name)
+                pb = K.playback(scratch, cfg, name, o["module"] + ".rs", o["meta"].get("cbmc"))
+            rp = os.path.join(replay_dir, "%s.%s.json" % (o["harness"], cfg))
+            common.write_json(rp, {
+                "property": prop, "obligation": rec["name"], "engine": "kani", "config": cfg, "harness": name,
+                "harness_module": o["module"], "function": rec["function"], "clause": rec["clause"],
+                "failed_checks": rec["failed"], "repo_head": common.repo_head(),
+                "playback": pb,
+                "confirmed_on_real_code": bool(pb and pb.get("native_failed")),
+            })
+            rec["replay"] = rp
+            v = {"site": site, "replay": rp, "known": site in known_sites,
+                 "no_input": not (pb and pb.get("native_failed")), "rec": rec}
+            violations.append(v)
+        records.append(rec)
+
+
 def run_kani(prop, tier, obs, mods, jobs, replay_dir, known_sites):
-    """Returns list of obligation records and list of violation records."""
+    """Returns obligation records, violation records, annotations, commands and the list of undecided parts.  A
+    configuration that does not build, or a harness that times out, makes that part undecided; the other configurations
+    and harnesses are still run and reported (a refutation found anywhere stands)."""
     records, violations, annotations = [], [], []
+    soft = []
     by_cfg = {}
     for o in obs:
         by_cfg.setdefault(o["config"], []).append(o)
     cmds = []
     for cfg, lst in sorted(by_cfg.items()):
-        scratch = common.new_scratch("k." + cfg)
-        common.copy_repo(scratch)
-        needed = {o["module"] for o in lst}
-        cmods = [m for m in mods_for_config(mods, cfg) if m["stem"] in needed or m.get("always") or m["stem"] == "support"]
-        annotations += K.annotate(scratch, cmods, cfg)
-        # full harness paths: <host module path>::verif_<stem>::<name>
-        full = {}
-        for o in lst:
-            full[_full_name(o)] = o
-        timeout = 3600 if tier == "quick" else 4 * 3600
-        # harnesses that need extra CBMC arguments (//@ob cbmc="...") run in their own invocation
-        groups = {}
-        for n, o in full.items():
-            groups.setdefault(o["meta"].get("cbmc", ""), []).append(n)
-        results, raw = {}, ""
-        for cb, names in sorted(groups.items()):
-            r1, raw1, cmd, data = K.run_harnesses(scratch, cfg, sorted(names), jobs, timeout,
-                                                  per_harness_timeout="600s" if tier == "quick" else "3600s", cbmc_args=cb or None)
-            results.update(r1)
-            raw += raw1
-            cmds.append(cmd)
-        missing = [n for n in full if n not in results]
-        if missing:
-            raise Undecided("kani did not run %d expected harnesses (renamed or filtered out?): %s" % (len(missing), missing[:5]))
-        for name, o in sorted(full.items()):
-            r = results[name]
-            rec = {
-                "name": "%s[%s]" % (o["harness"], cfg), "engine": "kani", "config": cfg, "harness": name,
-                "function": o["meta"].get("fn"), "at": o["meta"].get("at"), "clause": o["meta"].get("clause"),
-                "solver": r["solver"], "solver_s": r["solver_s"], "seconds": (r["duration_ms"] or 0) / 1000.0,
-                "checks": r["n_checks"], "vccs": r["vccs"], "covers": r["covers"],
-            }
-            if "bounded" in o["meta"]:
-                rec["bounded"] = o["meta"]["bounded"]          # a bounded stand-in: never counted as proved
-            if "instance" in o["meta"]:
-                rec["instance"] = o["meta"]["instance"]        # complete proof of ONE const-generic instantiation / size
-            if o["meta"].get("witness"):
-                # refutation witness of a recorded known finding: not an obligation that the property holds
-                rec["witness"] = True
-            expect_fail = o["meta"].get("expect") == "refuted"
-            status = r["status"]
-            bad_cover = [c for c in r["covers"] if not _cover_ok(c)]
-            if status == "Success" and not r["undetermined"] and not bad_cover:
-                rec["status"] = "discharged"
-            elif status == "Success" and bad_cover:
-                # vacuity guard tripped: an expected-reachable point is unreachable or vice versa
-                rec["status"] = "refuted"
-                rec["failed"] = [{"description": "cover %r is %s" % (c["description"], c["status"])} for c in bad_cover]
-            elif status == "Failure":
-                fc = r["failed_checks"]
-                only_unwind = fc and all("unwinding assertion" in (c["description"] or "") for c in fc)
-                if only_unwind or (not fc and r["undetermined"]):
-                    raise Undecided("harness %s: unwinding bound / undetermined checks: %s" % (name, fc or r["undetermined"]))
-                if not fc and r.get("should_panic") and "timed out" not in raw and not r["undetermined"]:
-                    # a #[kani::should_panic] harness in which nothing panicked: the "always panics" obligation is refuted
-                    fc = [{"description": "expected a panic (should_panic) but no execution panics", "function": name}]
-                if not fc:
-                    raise Undecided("harness %s failed without a failed check (timeout / solver error?)\n%s" % (name, raw[-3000:]))
-                rec["status"] = "refuted"
-                rec["failed"] = fc
-            else:
-                raise Undecided("harness %s: status %r undetermined=%s" % (name, status, r["undetermined"]))
-            if rec["status"] == "refuted":
-                site = o["harness"]
-                pb = None
-                if status == "Failure" and site in known_sites and o["meta"].get("witness"):
-                    pb = {"generated": False, "note": "witness of a recorded known finding: not replayed"}
-                elif status == "Failure":
-                    log("replaying counterexample of %s natively" % name)
-                    pb = K.playback(scratch, cfg, name, o["module"] + ".rs", o["meta"].get("cbmc"))
-                rp = os.path.join(replay_dir, "%s.%s.json" % (o["harness"], cfg))
-                common.write_json(rp, {
-                    "property": prop, "obligation": rec["name"], "engine": "kani", "config": cfg, "harness": name,
-                    "harness_module": o["module"], "function": rec["function"], "clause": rec["clause"],
-                    "failed_checks": rec["failed"], "repo_head": common.repo_head(),
-                    "playback": pb,
-                    "confirmed_on_real_code": bool(pb and pb.get("native_failed")),
-                })
-                rec["replay"] = rp
-                v = {"site": site, "replay": rp, "known": site in known_sites,
-                     "no_input": not (pb and pb.get("native_failed")), "rec": rec}
-                violations.append(v)
-            records.append(rec)
-    return records, violations, annotations, cmds
+        try:
+            _run_kani_config(prop, tier, cfg, lst, mods, jobs, replay_dir, known_sites, records, violations, annotations, cmds, soft)
+        except Undecided as u:
+            soft.append("config %s: %s" % (cfg, u))
+    return records, violations, annotations, cmds, soft
 
 
 def run_ext(prop, tier, jobs, replay_dir, known_sites, only=None):
@@ -280,7 +299,8 @@ def main():
     # each engine is run even if another one cannot decide: a refutation found by one engine stands
     if kobs:
         try:
-            r, v, an, c = run_kani(prop, a.tier, kobs, mods, a.jobs, replay_dir, known_sites)
+            r, v, an, c, soft = run_kani(prop, a.tier, kobs, mods, a.jobs, replay_dir, known_sites)
+            undecided += ["kani: %s" % x for x in soft]
             records += r
             violations += v
             annotations += an
